@@ -28,6 +28,9 @@ def _points(rng, g, tier):
     if g.grp != "G12":
         pts.append(g.rand_point(rng))
         pts.append(g.rand_point(rng))
+        # the order-3 automorphism (x, y) -> (beta x, y): points sharing y with / having the opposite y of another point
+        pts.append(O.phi(g.gen, g.b.p))
+        pts.append(O.aff_neg(O.phi(pts[3], g.b.p)))
     else:
         # a point of E(Fp12) that is neither in the twist image nor in E(Fp): twist(kG2) + cast(G1)
         g1 = next(x for x in curve_groups() if x.mod == g.mod and x.grp == "G1")
@@ -54,6 +57,8 @@ def cases(rng, tier):
         pairs = list(itertools.product(pts, repeat=2))
         if tier == "quick":
             pairs = rng.sample(pairs, min(len(pairs), 12))
+        if g.grp != "G12":
+            pairs += [(g.gen, O.phi(g.gen, g.b.p)), (g.gen, O.aff_neg(O.phi(g.gen, g.b.p))), (pts[3], O.aff_neg(O.phi(pts[3], g.b.p)))]
         for P, Q in pairs:
             cs.append(Case(pre + "add", [g.spec] + tk(P) + tk(Q)))
         # an off-curve point is reported as such
@@ -216,6 +221,10 @@ def predicates(rng, tier, only=None):
             continue
         pts = _points(rng, g, tier)
         nn = 1 if g.grp == "G12" else n
+        if g.grp != "G12":
+            sc0 = tuple(rand_scale(rng, g.b) for _ in range(3))
+            ps.append(Pred("group-laws", group_pred, (gi, g.gen, O.phi(g.gen, g.b.p), pts[2], 2, 3, sc0)))
+            ps.append(Pred("group-laws", group_pred, (gi, pts[3], O.aff_neg(O.phi(pts[3], g.b.p)), g.gen, 1, 5, sc0)))
         for _ in range(nn):
             P, Q, R = rng.choice(pts), rng.choice(pts), rng.choice(pts)
             big = g.grp != "G12"
